@@ -3,7 +3,7 @@ CONSTANTS
   Cons = {"s1", "s2"}
   Healthy = {"h"}
   Other = {"hb"}
-  N = 1
+  N = 2
   HCap = 64
   Parts = 1
   ElemParts = 1
@@ -18,4 +18,4 @@ CONSTANTS
   MaxLeave = 1
   MaxPubB = 2
 INVARIANTS Quiescent QueueBound WholeUnits
-VIEW GView
+ACTION_CONSTRAINT EmitA
